@@ -40,6 +40,10 @@ KeyArgs == {F(sq, <<Fl(f, <<S(n)>>)>>) : sq \in Seqs, f \in KeyF, n \in Attrs \c
 Lams  == {F(sq, <<Fl("map", <<Lam(<<"x">>, Path(<<Key("x"), Key(n)>>))>>)>> \o Show) : sq \in {V("s"), V("os")}, n \in Attrs \cup {"k"}}
          \cup {F(sq, <<Fl(f, <<Lam(<<"x">>, Path(<<Key("x"), Key(n)>>))>>), Fl("size", <<>>)>>) : sq \in {V("s"), V("os")}, f \in {"where", "reject"}, n \in Attrs}
          \cup {F(sq, <<Fl("map", <<Lam(<<"x">>, Path(<<Key("x"), Key(n), Key(n2)>>))>>)>> \o Show) : sq \in {V("s"), V("os")}, n \in {"__class__", "method"}, n2 \in Second}
+\* keyword arguments named like what the engine itself passes to a filter
+Reserved == {F(sq, <<Fk(f, a, <<WArg(kw, obj)>>)>>) : sq \in {V("s"), V("m"), S("lit")}, obj \in {V("o"), V("m")},
+                <<f, a, kw>> \in {<<"join", <<S(",")>>, "environment">>, <<"escape", <<>>, "environment">>, <<"url_encode", <<>>, "environment">>,
+                                 <<"t", <<>>, "context">>, <<"map", <<S("k")>>, "context">>, <<"gettext", <<>>, "context">>, <<"date", <<S("%Y")>>, "environment">>}}
 PlainF == {F(r, <<Fl(f, <<>>)>>) : r \in {V("m"), V("o"), V("s"), V("os")}, f \in {"size", "first", "last", "join", "upcase", "default", "reverse"}}
 
 LoopN == {"__class__", "__dict__", "__init__", "_keys", "keys", "it", "step", "items", "item", "parentloop", "length", "secret", "name"}
@@ -65,7 +69,7 @@ Tags == {If(Path(<<Key(r), Key(n)>>), <<NText("yes")>>, <<>>, NoElse) : r \in {"
         \cup {If(Contains(V(r), S(n)), <<NText("has")>>, <<>>, NoElse) : r \in {"m", "o"}, n \in {"secret", "k", "__class__"}}
 
 MCPoolAt(i) ==
-  CASE i = 1 -> {NOut(P(e)) : e \in Paths1 \cup Paths2} \cup {NOut(e) : e \in KeyArgs \cup Lams \cup PlainF} \cup Loops \cup Rows \cup Tags
+  CASE i = 1 -> {NOut(P(e)) : e \in Paths1 \cup Paths2} \cup {NOut(e) : e \in KeyArgs \cup Lams \cup PlainF \cup Reserved} \cup Loops \cup Rows \cup Tags
     [] i = 2 -> {NOut(P(V("a"))), NOut(P(Path(<<Key("a"), Key("__name__")>>)))}
     [] OTHER -> {}
 =============================================================================
